@@ -96,7 +96,8 @@ def build(kind, c, form, is_stmt, construct, exit_name, in_def, cb_exit=""):
         loop = "z = " + EXPR_CONSTRUCTS[construct] + "\n"
         err = bool(cb_exit)
     if in_def:
-        body = pre + cb + "def run():\n" + indent(loop) + "    emit(['after', fails(m), x])\n    return 0\n" + "run()\n"
+        hdr = "def run() -> int:\n" if in_def == "typed" else "def run():\n"
+        body = pre + cb + hdr + indent(loop) + "    emit(['after', fails(m), x])\n    return 0\n" + "run()\n"
     else:
         body = pre + cb + loop + "emit(['after', fails(m), x])\n"
     step2 = "emit(['caller', fails(m), x])\nemit(['iter', [i for i in x] == list(x), x])\n"
@@ -118,7 +119,7 @@ def judge(s, m, o):
     out = [x for st in steps for x in st["out"]]
     rep = {"spec": s, "meta": list(m), "container": kind, "mutator": form, "construct": construct, "exit": ex,
            "in_def": in_def, "out": out, "errs": [st["err"] and st["err"]["msg"] for st in steps]}
-    lvl = "def" if in_def else "module"
+    lvl = "typed-def" if in_def == "typed" else "def" if in_def else "module"
     key = f"{kind}:{form.split('(')[0]}:{construct}:{ex}:{lvl}"
     obs = []
     for x in out:
@@ -183,13 +184,15 @@ def run(tier):
             muts[kind] = muts[kind] + extra
     for kind, c in CONTAINERS.items():
         for form, is_stmt, after_enc in muts[kind]:
-            for in_def in (True, False):
+            for in_def in (True, False, "typed"):
                 for construct in FOR_CONSTRUCTS:
                     for ex in STMT_EXITS:
                         b = build(kind, c, form, is_stmt, construct, ex, in_def)
                         if b:
                             specs.append({"steps": b[0]})
                             meta.append((kind, form, construct, ex, in_def, b[1], after_enc))
+                if in_def == "typed":
+                    continue  # the return-type annotation only changes how statements (return) are compiled
                 for construct in EXPR_CONSTRUCTS:
                     if construct == "dictcomp" and kind == "list" and False:
                         continue
